@@ -7,6 +7,12 @@ Theorems over `Saito.TxV` (lean/Saito/Model/TxValidate.lean), the model of `Tran
 points and the transaction sweep of `Block::validate`; the model is tied to the real code by the `txv`
 correspondence suite (harness/src/txv.rs).
 
+* `C01_repaired`, `C01_repaired_pool`, `system_txs_repaired`, `edit_rejected_*_repaired` — the same theorems for EVERY
+  flag vector with the eight repairs `Repaired8` (`inputLocationSigned`, `windowChecked`, `verifyDropsPrivilegedTypes`
+  arbitrary; `Flags.measured` is the vector measured on the repaired tree), without the retention-window clause;
+  `C01_repaired_window` adds it back under `windowChecked`. `windowChecked_witness_measured`,
+  `window_clause_fails_measured`, `verifyDropsPrivilegedTypes_witness_measured` show the two omissions are necessary.
+  The `Flags.fixed` theorems below are corollaries.
 * `C01_full` — with every listed defect repaired, a block accepted by block validation spends, in each of its user
   transactions, only outputs that are in the pre-state spendable set, inside the retention window, owned by the key
   whose signature verified, and named once in the whole block. `C01_full_pool` is the same for the pool.
@@ -117,12 +123,26 @@ theorem slipUnlocked_spec (fl : Flags) (u : List Nat) (i : Input) (h : slipUnloc
   | false => rfl
   | true => simp [hw, ho, Input.isValue, hv] at h3
 
-/-- **One transaction, repaired validation.** A user transaction that validates against the spendable set `u`
-    spends, with each value-carrying input, an output that is in `u`, inside the window, and owned by the key of the
-    first input — against which the signature verified. -/
-theorem valid_user_tx (cx : Ctx) (hvau : cx.vau = true) (u : List Nat) (tx : Tx) (hu : isUser tx = true)
-    (h : txValidate Flags.fixed cx u tx = true) (i : Input) (hi : i ∈ tx.inputs) (hv : i.amount > 0) :
-    i.key ∈ u ∧ i.old = false ∧ tx.sigOk = true ∧ ∃ i0, tx.inputs.head? = some i0 ∧ i.owner = i0.owner := by
+/-- the four types that run through the "user-originated" block: needs `allInputsOwnedBySigner` only -/
+theorem valid_signed_tx (fl : Flags) (hown : fl.allInputsOwnedBySigner = true) (cx : Ctx) (hvau : cx.vau = true)
+    (u : List Nat) (tx : Tx) (ht : signedType tx.typ = true) (h : txValidate fl cx u tx = true)
+    (i : Input) (hi : i ∈ tx.inputs) (hv : i.amount > 0) :
+    i.key ∈ u ∧ (fl.windowChecked = true → i.old = false) ∧ tx.sigOk = true
+      ∧ ∃ i0, tx.inputs.head? = some i0 ∧ i.owner = i0.owner := by
+  obtain ⟨h1, h2, _⟩ := signed_type_spec fl cx u tx ht h
+  obtain ⟨_, hs, _, _, ho⟩ := userChecks_spec _ _ h1
+  obtain ⟨k1, k2⟩ := slipSpendable_spec _ _ _ (List.all_eq_true.1 (h2 hvau) i hi) hv
+  exact ⟨k1, k2, hs, ownedByFirst_spec tx (by simpa [ownOk, hown] using ho) i hi hv⟩
+
+/-- **One transaction, any flag vector with `allInputsOwnedBySigner`, `stakeTypeSigned` and
+    `spvTypeCannotCreateOutputs` repaired.** A user transaction that validates against the spendable set `u` spends,
+    with each value-carrying input, an output that is in `u`, owned by the key of the first input — against which the
+    signature verified — and, if `windowChecked` is repaired too, inside the window. -/
+theorem valid_user_tx_of (fl : Flags) (hown : fl.allInputsOwnedBySigner = true) (hstk : fl.stakeTypeSigned = true)
+    (hspv : fl.spvTypeCannotCreateOutputs = true) (cx : Ctx) (hvau : cx.vau = true) (u : List Nat) (tx : Tx)
+    (hu : isUser tx = true) (h : txValidate fl cx u tx = true) (i : Input) (hi : i ∈ tx.inputs) (hv : i.amount > 0) :
+    i.key ∈ u ∧ (fl.windowChecked = true → i.old = false) ∧ tx.sigOk = true
+      ∧ ∃ i0, tx.inputs.head? = some i0 ∧ i.owner = i0.owner := by
   cases hty : tx.typ with
   | fee => simp [isUser, hty] at hu
   | atr => simp [isUser, hty] at hu
@@ -138,54 +158,46 @@ theorem valid_user_tx (cx : Ctx) (hvau : cx.vau = true) (u : List Nat) (tx : Tx)
       · simp only [hty] at h
         have hany : tx.inputs.any Input.isValue = true :=
           List.any_eq_true.2 ⟨i, hi, by simp [Input.isValue, hv]⟩
-        simp [Flags.fixed, hany] at h
+        simp [hspv, hany] at h
   | blockStake =>
-    obtain ⟨h1, _, h3⟩ := stake_type_spec Flags.fixed cx u tx hty h
-    obtain ⟨_, hs, _, _, ho⟩ := userChecks_spec _ _ (h3 rfl)
+    obtain ⟨h1, _, h3⟩ := stake_type_spec fl cx u tx hty h
+    obtain ⟨_, hs, _, _, ho⟩ := userChecks_spec _ _ (h3 hstk)
     obtain ⟨k1, k2⟩ := slipUnlocked_spec _ _ _ (h1 i hi).2 hv
-    exact ⟨k1, k2 rfl, hs, ownedByFirst_spec tx (by simpa [ownOk, Flags.fixed] using ho) i hi hv⟩
-  | normal =>
-    obtain ⟨h1, h2, _⟩ := signed_type_spec Flags.fixed cx u tx (by simp [hty, signedType]) h
-    obtain ⟨_, hs, _, _, ho⟩ := userChecks_spec _ _ h1
-    obtain ⟨k1, k2⟩ := slipSpendable_spec _ _ _ (List.all_eq_true.1 (h2 hvau) i hi) hv
-    exact ⟨k1, k2 rfl, hs, ownedByFirst_spec tx (by simpa [ownOk, Flags.fixed] using ho) i hi hv⟩
-  | goldenTicket =>
-    obtain ⟨h1, h2, _⟩ := signed_type_spec Flags.fixed cx u tx (by simp [hty, signedType]) h
-    obtain ⟨_, hs, _, _, ho⟩ := userChecks_spec _ _ h1
-    obtain ⟨k1, k2⟩ := slipSpendable_spec _ _ _ (List.all_eq_true.1 (h2 hvau) i hi) hv
-    exact ⟨k1, k2 rfl, hs, ownedByFirst_spec tx (by simpa [ownOk, Flags.fixed] using ho) i hi hv⟩
-  | vip =>
-    obtain ⟨h1, h2, _⟩ := signed_type_spec Flags.fixed cx u tx (by simp [hty, signedType]) h
-    obtain ⟨_, hs, _, _, ho⟩ := userChecks_spec _ _ h1
-    obtain ⟨k1, k2⟩ := slipSpendable_spec _ _ _ (List.all_eq_true.1 (h2 hvau) i hi) hv
-    exact ⟨k1, k2 rfl, hs, ownedByFirst_spec tx (by simpa [ownOk, Flags.fixed] using ho) i hi hv⟩
-  | bound =>
-    obtain ⟨h1, h2, _⟩ := signed_type_spec Flags.fixed cx u tx (by simp [hty, signedType]) h
-    obtain ⟨_, hs, _, _, ho⟩ := userChecks_spec _ _ h1
-    obtain ⟨k1, k2⟩ := slipSpendable_spec _ _ _ (List.all_eq_true.1 (h2 hvau) i hi) hv
-    exact ⟨k1, k2 rfl, hs, ownedByFirst_spec tx (by simpa [ownOk, Flags.fixed] using ho) i hi hv⟩
+    exact ⟨k1, k2, hs, ownedByFirst_spec tx (by simpa [ownOk, hown] using ho) i hi hv⟩
+  | normal => exact valid_signed_tx fl hown cx hvau u tx (by simp [hty, signedType]) h i hi hv
+  | goldenTicket => exact valid_signed_tx fl hown cx hvau u tx (by simp [hty, signedType]) h i hi hv
+  | vip => exact valid_signed_tx fl hown cx hvau u tx (by simp [hty, signedType]) h i hi hv
+  | bound => exact valid_signed_tx fl hown cx hvau u tx (by simp [hty, signedType]) h i hi hv
 
-/-! ## C01 at full strength (all defects repaired) -/
+/-- **One transaction, repaired validation.** A user transaction that validates against the spendable set `u`
+    spends, with each value-carrying input, an output that is in `u`, inside the window, and owned by the key of the
+    first input — against which the signature verified. -/
+theorem valid_user_tx (cx : Ctx) (hvau : cx.vau = true) (u : List Nat) (tx : Tx) (hu : isUser tx = true)
+    (h : txValidate Flags.fixed cx u tx = true) (i : Input) (hi : i ∈ tx.inputs) (hv : i.amount > 0) :
+    i.key ∈ u ∧ i.old = false ∧ tx.sigOk = true ∧ ∃ i0, tx.inputs.head? = some i0 ∧ i.owner = i0.owner := by
+  obtain ⟨k1, k2, k3, k4⟩ := valid_user_tx_of Flags.fixed rfl rfl rfl cx hvau u tx hu h i hi hv
+  exact ⟨k1, k2 rfl, k3, k4⟩
+
+/-! ## C01 for every flag vector with the eight repairs (`Repaired8`), and at full strength (`Flags.fixed`) -/
 
 theorem blockAccepts_sweep (fl : Flags) (bc : BCtx) (u : List Nat) (txs : List Tx)
     (h : blockAccepts fl bc u txs = true) : blockSweep fl bc.cx u txs = true := by
   simp only [blockAccepts, blockValidate, Bool.and_eq_true] at h
   exact h.2.2
 
-/-- **C01.** Every value-carrying input of every user transaction of a block that block validation accepts refers to
-    an output that is spendable in the pre-state (`∈ u`), is inside the retention window, belongs to the key whose
-    signature authorises the transaction (`sigOk`, owner = signer), and is named exactly once among all value inputs
-    of the block's transactions. For every block, every position, every pre-state. -/
-theorem C01_full (bc : BCtx) (u : List Nat) (txs : List Tx) (hvau : bc.cx.vau = true)
-    (hsound : ∀ tx ∈ txs, SigSound tx) (hacc : blockAccepts Flags.fixed bc u txs = true) :
+/-- the common core of `C01_repaired` and `C01_full`; the window clause is conditional on `windowChecked`.
+    Flags used: `txVerdictPropagated`, `allInputsOwnedBySigner`, `stakeTypeSigned`, `spvTypeCannotCreateOutputs`. -/
+theorem C01_core (fl : Flags) (hr : Repaired8 fl) (bc : BCtx) (u : List Nat) (txs : List Tx)
+    (hvau : bc.cx.vau = true) (hsound : ∀ tx ∈ txs, SigSound tx) (hacc : blockAccepts fl bc u txs = true) :
     ∀ tx ∈ txs, isUser tx = true → ∀ i ∈ tx.inputs, isValueInput i = true →
-      i.key ∈ u ∧ i.old = false ∧ (tx.sigOk = true ∧ i.owner = tx.signer)
+      i.key ∈ u ∧ (fl.windowChecked = true → i.old = false) ∧ (tx.sigOk = true ∧ i.owner = tx.signer)
         ∧ (blockValueKeys txs).count i.key = 1 := by
   intro tx htx hu i hi hval
   have hsw := blockAccepts_sweep _ _ _ _ hacc
-  obtain ⟨hall, hnd, _⟩ := sweepGo_propagated Flags.fixed rfl bc.cx u txs [] hsw
+  obtain ⟨hall, hnd, _⟩ := sweepGo_propagated fl hr.txVerdictPropagated bc.cx u txs [] hsw
   simp only [isValueInput, Bool.and_eq_true, decide_eq_true_eq, bne_iff_ne, ne_eq] at hval
-  obtain ⟨k1, k2, k3, i0, k4, k5⟩ := valid_user_tx bc.cx hvau u tx hu (hall tx htx) i hi hval.1
+  obtain ⟨k1, k2, k3, i0, k4, k5⟩ := valid_user_tx_of fl hr.allInputsOwnedBySigner hr.stakeTypeSigned
+    hr.spvTypeCannotCreateOutputs bc.cx hvau u tx hu (hall tx htx) i hi hval.1
   obtain ⟨j0, e1, e2⟩ := hsound tx htx k3
   rw [k4] at e1
   cases e1
@@ -199,13 +211,51 @@ theorem C01_full (bc : BCtx) (u : List Nat) (txs : List Tx) (hvau : bc.cx.vau = 
       exact List.mem_map.2 ⟨i, List.mem_filter.2 ⟨hi, by simp [hval.1, hval.2]⟩, rfl⟩
   rw [hnd.count, if_pos hmem]
 
+/-- **C01 on every tree with the eight repairs** (in particular the measured vector `Flags.measured`). Every
+    value-carrying input of every user transaction of a block that block validation accepts refers to an output that is
+    spendable in the pre-state (`∈ u`), belongs to the key whose signature authorises the transaction (`sigOk`,
+    owner = signer), and is named exactly once among all value inputs of the block's transactions. For every block,
+    every position, every pre-state; whatever `inputLocationSigned`, `windowChecked`, `verifyDropsPrivilegedTypes` are.
+    NOT concluded: the output is inside the retention window (`windowChecked_witness_measured`). -/
+theorem C01_repaired (fl : Flags) (hr : Repaired8 fl) (bc : BCtx) (u : List Nat) (txs : List Tx)
+    (hvau : bc.cx.vau = true) (hsound : ∀ tx ∈ txs, SigSound tx) (hacc : blockAccepts fl bc u txs = true) :
+    ∀ tx ∈ txs, isUser tx = true → ∀ i ∈ tx.inputs, isValueInput i = true →
+      i.key ∈ u ∧ (tx.sigOk = true ∧ i.owner = tx.signer) ∧ (blockValueKeys txs).count i.key = 1 := by
+  intro tx htx hu i hi hval
+  obtain ⟨k1, _, k3, k4⟩ := C01_core fl hr bc u txs hvau hsound hacc tx htx hu i hi hval
+  exact ⟨k1, k3, k4⟩
+
+/-- … and once `windowChecked` is repaired as well, the output is inside the retention window: the statement of
+    `C01_full` for every such vector -/
+theorem C01_repaired_window (fl : Flags) (hr : Repaired8 fl) (hw : fl.windowChecked = true) (bc : BCtx) (u : List Nat)
+    (txs : List Tx) (hvau : bc.cx.vau = true) (hsound : ∀ tx ∈ txs, SigSound tx)
+    (hacc : blockAccepts fl bc u txs = true) :
+    ∀ tx ∈ txs, isUser tx = true → ∀ i ∈ tx.inputs, isValueInput i = true →
+      i.key ∈ u ∧ i.old = false ∧ (tx.sigOk = true ∧ i.owner = tx.signer)
+        ∧ (blockValueKeys txs).count i.key = 1 := by
+  intro tx htx hu i hi hval
+  obtain ⟨k1, k2, k3, k4⟩ := C01_core fl hr bc u txs hvau hsound hacc tx htx hu i hi hval
+  exact ⟨k1, k2 hw, k3, k4⟩
+
+/-- **C01.** Every value-carrying input of every user transaction of a block that block validation accepts refers to
+    an output that is spendable in the pre-state (`∈ u`), is inside the retention window, belongs to the key whose
+    signature authorises the transaction (`sigOk`, owner = signer), and is named exactly once among all value inputs
+    of the block's transactions. For every block, every position, every pre-state. -/
+theorem C01_full (bc : BCtx) (u : List Nat) (txs : List Tx) (hvau : bc.cx.vau = true)
+    (hsound : ∀ tx ∈ txs, SigSound tx) (hacc : blockAccepts Flags.fixed bc u txs = true) :
+    ∀ tx ∈ txs, isUser tx = true → ∀ i ∈ tx.inputs, isValueInput i = true →
+      i.key ∈ u ∧ i.old = false ∧ (tx.sigOk = true ∧ i.owner = tx.signer)
+        ∧ (blockValueKeys txs).count i.key = 1 :=
+  C01_repaired_window Flags.fixed Repaired8.fixed rfl bc u txs hvau hsound hacc
+
 /-- the transactions C01 does not count as user transactions are exactly the protocol's own: in an accepted block
     every Fee-typed transaction is the expected one (at most one), ATR-typed ones are the expected rebroadcasts, and an
-    Issuance-typed one occurs in block 1 only -/
-theorem system_txs_fixed (bc : BCtx) (u : List Nat) (txs : List Tx) (hacc : blockAccepts Flags.fixed bc u txs = true) :
+    Issuance-typed one occurs in block 1 only. Flag used: `singleFeeTx` (the ATR and Issuance rules carry no flag). -/
+theorem system_txs_repaired (fl : Flags) (hr : Repaired8 fl) (bc : BCtx) (u : List Nat) (txs : List Tx)
+    (hacc : blockAccepts fl bc u txs = true) :
     (∀ tx ∈ txs, tx.typ = .fee → tx.feeExp = true) ∧ (txs.filter (isType .fee)).length ≤ 1
     ∧ (bc.cx.vau = true → bc.atrOk = true) ∧ ((∃ tx ∈ txs, tx.typ = .issuance) → bc.id ≤ 1) := by
-  simp only [blockAccepts, blockValidate, feeRule, Flags.fixed, Bool.and_eq_true, Bool.not_eq_true',
+  simp only [blockAccepts, blockValidate, feeRule, hr.singleFeeTx, Bool.and_eq_true, Bool.not_eq_true',
     Bool.and_eq_false_iff, if_true, List.all_eq_true, decide_eq_true_eq, decide_eq_false_iff_not] at hacc
   obtain ⟨_, ⟨⟨⟨⟨⟨⟨_, hiss⟩, _⟩, hatr⟩, _⟩, hfee, hlen⟩, _⟩⟩ := hacc
   refine ⟨fun tx hm ht => hfee tx (List.mem_filter.2 ⟨hm, by simp [isType, ht]⟩), hlen, ?_, ?_⟩
@@ -221,6 +271,104 @@ theorem system_txs_fixed (bc : BCtx) (u : List Nat) (txs : List Tx) (hacc : bloc
       rw [this] at h; cases h
     · omega
 
+theorem system_txs_fixed (bc : BCtx) (u : List Nat) (txs : List Tx) (hacc : blockAccepts Flags.fixed bc u txs = true) :
+    (∀ tx ∈ txs, tx.typ = .fee → tx.feeExp = true) ∧ (txs.filter (isType .fee)).length ≤ 1
+    ∧ (bc.cx.vau = true → bc.atrOk = true) ∧ ((∃ tx ∈ txs, tx.typ = .issuance) → bc.id ≤ 1) :=
+  system_txs_repaired Flags.fixed Repaired8.fixed bc u txs hacc
+
+/-! ### the transaction pool -/
+
+/-- what `.accepted` means: the verdict was `true` (utxo check on) and, with `poolRejectsPrivilegedTypes`, the type
+    is not Fee / SPV / ATR / Issuance -/
+theorem pool_accepted_spec (fl : Flags) (hp : fl.poolRejectsPrivilegedTypes = true) (cx : Ctx) (u : List Nat) (tx : Tx)
+    (h : poolAccepts fl cx u tx = .accepted) :
+    txValidate fl { cx with vau := true } u tx = true ∧ tx.typ.privileged = false := by
+  unfold poolAccepts at h
+  split at h
+  · cases h
+  · rename_i h1
+    split at h
+    · cases h
+    · rename_i h2
+      refine ⟨by simpa using h1, ?_⟩
+      cases hpr : tx.typ.privileged with
+      | false => rfl
+      | true => simp [hp, hpr] at h2
+
+/-- what "forwarded" means: the verdict was `true`; the type is unprivileged only with `verifyDropsPrivilegedTypes` -/
+theorem forwards_spec (fl : Flags) (cx : Ctx) (u : List Nat) (tx : Tx) (h : verifyTxForwards fl cx u tx = true) :
+    txValidate fl { cx with vau := true } u tx = true
+      ∧ (fl.verifyDropsPrivilegedTypes = true → tx.typ.privileged = false) := by
+  simp only [verifyTxForwards, Bool.and_eq_true, Bool.not_eq_true'] at h
+  refine ⟨h.1, fun hf => ?_⟩
+  cases hp : tx.typ.privileged with
+  | false => rfl
+  | true => simp [hf, hp] at h
+
+theorem isUser_of_not_privileged (tx : Tx) (hp : tx.typ.privileged = false) : isUser tx = true := by
+  cases hty : tx.typ <;> simp [hty, TxType.privileged] at hp <;> simp [isUser, hty]
+
+/-- a user transaction with verdict `true` (utxo check on), `Repaired8`: its value inputs are pairwise distinct,
+    spendable, authorised by their owner (and in the window if `windowChecked`).
+    Flags used: `dupInputsDetected`, `allInputsOwnedBySigner`, `stakeTypeSigned`, `spvTypeCannotCreateOutputs`. -/
+theorem valid_tx_inputs (fl : Flags) (hr : Repaired8 fl) (cx : Ctx) (u : List Nat) (tx : Tx) (hsound : SigSound tx)
+    (hu : isUser tx = true) (hv : txValidate fl { cx with vau := true } u tx = true) :
+    (valueKeys tx).Nodup ∧ ∀ i ∈ tx.inputs, i.amount > 0 →
+      i.key ∈ u ∧ (fl.windowChecked = true → i.old = false) ∧ tx.sigOk = true ∧ i.owner = tx.signer := by
+  refine ⟨?_, ?_⟩
+  · -- the repaired duplicate test runs before the type dispatch
+    have hv' := hv
+    unfold txValidate at hv'
+    split at hv'
+    · cases hv'
+    · split at hv'
+      · cases hv'
+      · rename_i hd
+        cases hn : noDup (valueKeys tx) with
+        | true => exact (noDup_iff _).1 hn
+        | false => simp [hr.dupInputsDetected, hn] at hd
+  · intro i hi hval
+    obtain ⟨k1, k2, k3, i0, k4, k5⟩ := valid_user_tx_of fl hr.allInputsOwnedBySigner hr.stakeTypeSigned
+      hr.spvTypeCannotCreateOutputs { cx with vau := true } rfl u tx hu hv i hi hval
+    obtain ⟨j0, e1, e2⟩ := hsound k3
+    rw [k4] at e1
+    cases e1
+    exact ⟨k1, k2, k3, by rw [k5, e2]⟩
+
+/-- **C01 for the pool, every tree with the eight repairs.** A peer transaction the pool accepts is a user
+    transaction whose value inputs are spendable, authorised by their owner, and pairwise distinct. Only the pool is
+    a hypothesis: with `verifyDropsPrivilegedTypes = false` the verification thread may forward a Fee / ATR /
+    Issuance-typed transaction (`verifyDropsPrivilegedTypes_witness_measured`), which the pool then refuses —
+    `C01_repaired_forwarded` says what a forwarded transaction still satisfies. NOT concluded: the window. -/
+theorem C01_repaired_pool (fl : Flags) (hr : Repaired8 fl) (cx : Ctx) (u : List Nat) (tx : Tx) (hsound : SigSound tx)
+    (hacc : poolAccepts fl cx u tx = .accepted) :
+    isUser tx = true ∧ (valueKeys tx).Nodup ∧
+    ∀ i ∈ tx.inputs, i.amount > 0 → i.key ∈ u ∧ tx.sigOk = true ∧ i.owner = tx.signer := by
+  obtain ⟨hv, hp⟩ := pool_accepted_spec fl hr.poolRejectsPrivilegedTypes cx u tx hacc
+  have hu := isUser_of_not_privileged tx hp
+  obtain ⟨hn, hin⟩ := valid_tx_inputs fl hr cx u tx hsound hu hv
+  exact ⟨hu, hn, fun i hi hval => ⟨(hin i hi hval).1, (hin i hi hval).2.2⟩⟩
+
+/-- … with `windowChecked` repaired as well: the conclusion of `C01_full_pool` -/
+theorem C01_repaired_pool_window (fl : Flags) (hr : Repaired8 fl) (hw : fl.windowChecked = true) (cx : Ctx)
+    (u : List Nat) (tx : Tx) (hsound : SigSound tx) (hacc : poolAccepts fl cx u tx = .accepted) :
+    isUser tx = true ∧ (valueKeys tx).Nodup ∧
+    ∀ i ∈ tx.inputs, i.amount > 0 → i.key ∈ u ∧ i.old = false ∧ tx.sigOk = true ∧ i.owner = tx.signer := by
+  obtain ⟨hv, hp⟩ := pool_accepted_spec fl hr.poolRejectsPrivilegedTypes cx u tx hacc
+  have hu := isUser_of_not_privileged tx hp
+  obtain ⟨hn, hin⟩ := valid_tx_inputs fl hr cx u tx hsound hu hv
+  exact ⟨hu, hn, fun i hi hval => ⟨(hin i hi hval).1, (hin i hi hval).2.1 hw, (hin i hi hval).2.2⟩⟩
+
+/-- what the verification thread guarantees on a tree with the eight repairs: a forwarded transaction *of a user
+    type* has pairwise distinct, spendable, owner-authorised value inputs. (That it IS of a user type needs
+    `verifyDropsPrivilegedTypes`; an SPV-typed one is forwarded too, but carries no value input.) -/
+theorem C01_repaired_forwarded (fl : Flags) (hr : Repaired8 fl) (cx : Ctx) (u : List Nat) (tx : Tx)
+    (hsound : SigSound tx) (hu : isUser tx = true) (hacc : verifyTxForwards fl cx u tx = true) :
+    (valueKeys tx).Nodup ∧
+    ∀ i ∈ tx.inputs, i.amount > 0 → i.key ∈ u ∧ tx.sigOk = true ∧ i.owner = tx.signer := by
+  obtain ⟨hn, hin⟩ := valid_tx_inputs fl hr cx u tx hsound hu (forwards_spec fl cx u tx hacc).1
+  exact ⟨hn, fun i hi hval => ⟨(hin i hi hval).1, (hin i hi hval).2.2⟩⟩
+
 /-- the same for the transaction pool: an accepted (or forwarded) peer transaction is a user transaction whose value
     inputs are spendable, in the window, authorised by their owner, and pairwise distinct -/
 theorem C01_full_pool (cx : Ctx) (u : List Nat) (tx : Tx) (hsound : SigSound tx)
@@ -229,42 +377,12 @@ theorem C01_full_pool (cx : Ctx) (u : List Nat) (tx : Tx) (hsound : SigSound tx)
     ∀ i ∈ tx.inputs, i.amount > 0 → i.key ∈ u ∧ i.old = false ∧ tx.sigOk = true ∧ i.owner = tx.signer := by
   have hv : txValidate Flags.fixed { cx with vau := true } u tx = true ∧ tx.typ.privileged = false := by
     rcases hacc with h | h
-    · unfold poolAccepts at h
-      split at h
-      · cases h
-      · rename_i h1
-        split at h
-        · cases h
-        · rename_i h2
-          refine ⟨by simpa using h1, ?_⟩
-          cases hp : tx.typ.privileged with
-          | false => rfl
-          | true => simp [Flags.fixed, hp] at h2
-    · simp only [verifyTxForwards, Bool.and_eq_true, Bool.not_eq_true'] at h
-      refine ⟨h.1, ?_⟩
-      cases hp : tx.typ.privileged with
-      | false => rfl
-      | true => simp [Flags.fixed, hp] at h
+    · exact pool_accepted_spec Flags.fixed rfl cx u tx h
+    · exact ⟨(forwards_spec Flags.fixed cx u tx h).1, (forwards_spec Flags.fixed cx u tx h).2 rfl⟩
   obtain ⟨hv, hp⟩ := hv
-  have hu : isUser tx = true := by
-    cases hty : tx.typ <;> simp [hty, TxType.privileged] at hp <;> simp [isUser, hty]
-  refine ⟨hu, ?_, ?_⟩
-  · -- the repaired duplicate test runs before the type dispatch
-    unfold txValidate at hv
-    split at hv
-    · cases hv
-    · split at hv
-      · cases hv
-      · rename_i hd
-        cases hn : noDup (valueKeys tx) with
-        | true => exact (noDup_iff _).1 hn
-        | false => simp [Flags.fixed, hn] at hd
-  · intro i hi hval
-    obtain ⟨k1, k2, k3, i0, k4, k5⟩ := valid_user_tx { cx with vau := true } rfl u tx hu hv i hi hval
-    obtain ⟨j0, e1, e2⟩ := hsound k3
-    rw [k4] at e1
-    cases e1
-    exact ⟨k1, k2, k3, by rw [k5, e2]⟩
+  have hu := isUser_of_not_privileged tx hp
+  obtain ⟨hn, hin⟩ := valid_tx_inputs Flags.fixed Repaired8.fixed cx u tx hsound hu hv
+  exact ⟨hu, hn, fun i hi hval => ⟨(hin i hi hval).1, (hin i hi hval).2.1 rfl, (hin i hi hval).2.2⟩⟩
 
 /-- non-vacuity of `C01_full`: a block of a golden ticket, two signed transactions and the expected fee transaction
     is accepted with every repair in place -/
@@ -274,57 +392,125 @@ example : blockAccepts Flags.fixed {} [1, 2, 3]
       { inputs := [⟨3, 2, 700, 0, false, false⟩], outputs := [⟨1, 700, 0⟩], sigOk := true, signer := 2 },
       { typ := .fee, feeExp := true } ] = true := by decide
 
-/-! ## the catalogue of adversarial edits is refused (repaired flags), by block validation and by the pool alike -/
+/-- non-vacuity of `C01_repaired` / `C01_repaired_pool`: the same block, and its second transaction, are accepted
+    under the measured flag vector -/
+example : blockAccepts Flags.measured {} [1, 2, 3]
+    [ { typ := .goldenTicket, inputs := [⟨0, 6, 0, 0, false, false⟩], outputs := [⟨6, 0, 0⟩], sigOk := true, signer := 6 },
+      { inputs := [⟨1, 1, 1000, 0, false, false⟩, ⟨2, 1, 500, 0, false, false⟩], outputs := [⟨2, 1500, 0⟩], sigOk := true, signer := 1 },
+      { inputs := [⟨3, 2, 700, 0, false, false⟩], outputs := [⟨1, 700, 0⟩], sigOk := true, signer := 2 },
+      { typ := .fee, feeExp := true } ] = true
+    ∧ poolAccepts Flags.measured {} [1, 2, 3]
+      { inputs := [⟨1, 1, 1000, 0, false, false⟩, ⟨2, 1, 500, 0, false, false⟩], outputs := [⟨2, 1500, 0⟩],
+        sigOk := true, signer := 1 } = .accepted := by decide
 
-/-- glue: a transaction with a `false` verdict makes the whole block unacceptable, wherever it stands -/
-theorem block_rejects_invalid_tx (bc : BCtx) (u : List Nat) (txs : List Tx) (tx : Tx) (hm : tx ∈ txs)
-    (hv : txValidate Flags.fixed bc.cx u tx = false) : blockAccepts Flags.fixed bc u txs = false := by
-  have : blockSweep Flags.fixed bc.cx u txs = false := sweepGo_false_of_invalid _ rfl _ _ _ _ _ hm hv
+/-! ## the catalogue of adversarial edits is refused, by block validation and by the pool alike
+
+Each edit is stated twice: `*_repaired` for every flag vector with the eight repairs (`Repaired8 fl`, the three open
+flags arbitrary) and, under the original name, for `Flags.fixed`. Two statements depend on an open flag and say so:
+an *expired* input is refused only with `windowChecked` (the disjunct `fl.windowChecked = true ∧ i.old = true` of
+`edit_rejected_bad_input_*_repaired`; unconditional for `Flags.fixed` only), and the verification thread drops a
+privileged type only with `verifyDropsPrivilegedTypes` (`edit_rejected_privileged_pool_repaired`). -/
+
+/-- glue: with the verdict propagated, a transaction with a `false` verdict makes the whole block unacceptable,
+    wherever it stands -/
+theorem block_rejects_invalid_tx_of (fl : Flags) (hf : fl.txVerdictPropagated = true) (bc : BCtx) (u : List Nat)
+    (txs : List Tx) (tx : Tx) (hm : tx ∈ txs) (hv : txValidate fl bc.cx u tx = false) :
+    blockAccepts fl bc u txs = false := by
+  have : blockSweep fl bc.cx u txs = false := sweepGo_false_of_invalid _ hf _ _ _ _ _ hm hv
   simp [blockAccepts, blockValidate, this]
 
-/-- glue: the pool refuses what validation (with the utxo check) refuses -/
-theorem pool_rejects_invalid_tx (cx : Ctx) (u : List Nat) (tx : Tx)
-    (hv : txValidate Flags.fixed { cx with vau := true } u tx = false) :
-    poolAccepts Flags.fixed cx u tx = .rejected ∧ verifyTxForwards Flags.fixed cx u tx = false := by
+theorem block_rejects_invalid_tx (bc : BCtx) (u : List Nat) (txs : List Tx) (tx : Tx) (hm : tx ∈ txs)
+    (hv : txValidate Flags.fixed bc.cx u tx = false) : blockAccepts Flags.fixed bc u txs = false :=
+  block_rejects_invalid_tx_of Flags.fixed rfl bc u txs tx hm hv
+
+/-- glue: pool and verification thread refuse what validation (with the utxo check) refuses — on every tree -/
+theorem pool_rejects_invalid_tx_of (fl : Flags) (cx : Ctx) (u : List Nat) (tx : Tx)
+    (hv : txValidate fl { cx with vau := true } u tx = false) :
+    poolAccepts fl cx u tx = .rejected ∧ verifyTxForwards fl cx u tx = false := by
   simp [poolAccepts, verifyTxForwards, hv]
 
-/-- a verdict `true` of a type that needs a signature implies the signature verified -/
-theorem needs_sig (cx : Ctx) (u : List Nat) (tx : Tx) (ht : signedType tx.typ = true ∨ tx.typ = .blockStake)
-    (hs : tx.sigOk = false) : txValidate Flags.fixed cx u tx = false := by
-  cases h : txValidate Flags.fixed cx u tx with
+theorem pool_rejects_invalid_tx (cx : Ctx) (u : List Nat) (tx : Tx)
+    (hv : txValidate Flags.fixed { cx with vau := true } u tx = false) :
+    poolAccepts Flags.fixed cx u tx = .rejected ∧ verifyTxForwards Flags.fixed cx u tx = false :=
+  pool_rejects_invalid_tx_of Flags.fixed cx u tx hv
+
+/-- a verdict `true` of a type that needs a signature implies the signature verified
+    (flag used: `stakeTypeSigned`, for the BlockStake type only) -/
+theorem needs_sig_of (fl : Flags) (hstk : fl.stakeTypeSigned = true) (cx : Ctx) (u : List Nat) (tx : Tx)
+    (ht : signedType tx.typ = true ∨ tx.typ = .blockStake) (hs : tx.sigOk = false) :
+    txValidate fl cx u tx = false := by
+  cases h : txValidate fl cx u tx with
   | false => rfl
   | true =>
     rcases ht with ht | ht
     · have := (userChecks_spec _ _ (signed_type_spec _ _ _ _ ht h).1).2.1
       rw [hs] at this; cases this
-    · have := (userChecks_spec _ _ ((stake_type_spec _ _ _ _ ht h).2.2 rfl)).2.1
+    · have := (userChecks_spec _ _ ((stake_type_spec _ _ _ _ ht h).2.2 hstk)).2.1
       rw [hs] at this; cases this
 
+theorem needs_sig (cx : Ctx) (u : List Nat) (tx : Tx) (ht : signedType tx.typ = true ∨ tx.typ = .blockStake)
+    (hs : tx.sigOk = false) : txValidate Flags.fixed cx u tx = false :=
+  needs_sig_of Flags.fixed rfl cx u tx ht hs
+
 /-- edit "forged / missing signature / signed by another key": refused by block validation at any position -/
+theorem edit_rejected_bad_signature_block_repaired (fl : Flags) (hr : Repaired8 fl) (bc : BCtx) (u : List Nat)
+    (txs : List Tx) (tx : Tx) (hm : tx ∈ txs) (ht : signedType tx.typ = true ∨ tx.typ = .blockStake)
+    (hs : tx.sigOk = false) : blockAccepts fl bc u txs = false :=
+  block_rejects_invalid_tx_of fl hr.txVerdictPropagated bc u txs tx hm (needs_sig_of fl hr.stakeTypeSigned _ _ _ ht hs)
+
 theorem edit_rejected_bad_signature_block (bc : BCtx) (u : List Nat) (txs : List Tx) (tx : Tx) (hm : tx ∈ txs)
     (ht : signedType tx.typ = true ∨ tx.typ = .blockStake) (hs : tx.sigOk = false) :
     blockAccepts Flags.fixed bc u txs = false :=
-  block_rejects_invalid_tx bc u txs tx hm (needs_sig _ _ _ ht hs)
+  edit_rejected_bad_signature_block_repaired Flags.fixed Repaired8.fixed bc u txs tx hm ht hs
 
-/-- … and by the pool -/
+/-- … and by the pool and the verification thread (both conjuncts: the verdict itself is `false`) -/
+theorem edit_rejected_bad_signature_pool_repaired (fl : Flags) (hr : Repaired8 fl) (cx : Ctx) (u : List Nat) (tx : Tx)
+    (ht : signedType tx.typ = true ∨ tx.typ = .blockStake) (hs : tx.sigOk = false) :
+    poolAccepts fl cx u tx = .rejected ∧ verifyTxForwards fl cx u tx = false :=
+  pool_rejects_invalid_tx_of fl cx u tx (needs_sig_of fl hr.stakeTypeSigned _ _ _ ht hs)
+
 theorem edit_rejected_bad_signature_pool (cx : Ctx) (u : List Nat) (tx : Tx)
     (ht : signedType tx.typ = true ∨ tx.typ = .blockStake) (hs : tx.sigOk = false) :
     poolAccepts Flags.fixed cx u tx = .rejected ∧ verifyTxForwards Flags.fixed cx u tx = false :=
-  pool_rejects_invalid_tx cx u tx (needs_sig _ _ _ ht hs)
+  edit_rejected_bad_signature_pool_repaired Flags.fixed Repaired8.fixed cx u tx ht hs
 
-/-- a user transaction with a value input that fails one of the C01 conditions has verdict `false` -/
+/-- a user transaction with a value input that fails one of the C01 conditions has verdict `false`; the window
+    condition counts only where `windowChecked` is repaired -/
+theorem bad_input_invalid_of (fl : Flags) (hown : fl.allInputsOwnedBySigner = true) (hstk : fl.stakeTypeSigned = true)
+    (hspv : fl.spvTypeCannotCreateOutputs = true) (cx : Ctx) (hvau : cx.vau = true) (u : List Nat) (tx : Tx)
+    (hu : isUser tx = true) (i : Input) (hi : i ∈ tx.inputs) (hv : i.amount > 0)
+    (hbad : i.key ∉ u ∨ (fl.windowChecked = true ∧ i.old = true)
+              ∨ (∀ i0, tx.inputs.head? = some i0 → i.owner ≠ i0.owner)) :
+    txValidate fl cx u tx = false := by
+  cases h : txValidate fl cx u tx with
+  | false => rfl
+  | true =>
+    obtain ⟨k1, k2, _, i0, k4, k5⟩ := valid_user_tx_of fl hown hstk hspv cx hvau u tx hu h i hi hv
+    rcases hbad with hb | ⟨hw, hb⟩ | hb
+    · exact absurd k1 hb
+    · rw [k2 hw] at hb; cases hb
+    · exact absurd k5 (hb i0 k4)
+
 theorem bad_input_invalid (cx : Ctx) (hvau : cx.vau = true) (u : List Nat) (tx : Tx) (hu : isUser tx = true)
     (i : Input) (hi : i ∈ tx.inputs) (hv : i.amount > 0)
     (hbad : i.key ∉ u ∨ i.old = true ∨ (∀ i0, tx.inputs.head? = some i0 → i.owner ≠ i0.owner)) :
-    txValidate Flags.fixed cx u tx = false := by
-  cases h : txValidate Flags.fixed cx u tx with
-  | false => rfl
-  | true =>
-    obtain ⟨k1, k2, _, i0, k4, k5⟩ := valid_user_tx cx hvau u tx hu h i hi hv
-    rcases hbad with hb | hb | hb
-    · exact absurd k1 hb
-    · rw [k2] at hb; cases hb
-    · exact absurd k5 (hb i0 k4)
+    txValidate Flags.fixed cx u tx = false :=
+  bad_input_invalid_of Flags.fixed rfl rfl rfl cx hvau u tx hu i hi hv
+    (hbad.imp_right (Or.imp_left fun h => ⟨rfl, h⟩))
+
+/-- edits "non-existent input", "already-spent input", "input from an abandoned branch" (`key ∉ u`), "foreign-owned
+    extra input" (owner differs from the first input's): refused by block validation on every tree with the eight
+    repairs. "Expired input" (`old`): refused only where `windowChecked` is repaired — on the measured vector it is
+    ACCEPTED (`windowChecked_witness_measured`); unconditional in `edit_rejected_bad_input_block` (`Flags.fixed`). -/
+theorem edit_rejected_bad_input_block_repaired (fl : Flags) (hr : Repaired8 fl) (bc : BCtx) (hvau : bc.cx.vau = true)
+    (u : List Nat) (txs : List Tx) (tx : Tx) (hm : tx ∈ txs) (hu : isUser tx = true) (i : Input) (hi : i ∈ tx.inputs)
+    (hv : i.amount > 0)
+    (hbad : i.key ∉ u ∨ (fl.windowChecked = true ∧ i.old = true)
+              ∨ (∀ i0, tx.inputs.head? = some i0 → i.owner ≠ i0.owner)) :
+    blockAccepts fl bc u txs = false :=
+  block_rejects_invalid_tx_of fl hr.txVerdictPropagated bc u txs tx hm
+    (bad_input_invalid_of fl hr.allInputsOwnedBySigner hr.stakeTypeSigned hr.spvTypeCannotCreateOutputs bc.cx hvau u tx
+      hu i hi hv hbad)
 
 /-- edits "non-existent input", "already-spent input", "input from an abandoned branch" (`key ∉ u`), "expired input"
     (`old`), "foreign-owned extra input" (owner differs from the first input's): refused by block validation -/
@@ -334,6 +520,16 @@ theorem edit_rejected_bad_input_block (bc : BCtx) (hvau : bc.cx.vau = true) (u :
     blockAccepts Flags.fixed bc u txs = false :=
   block_rejects_invalid_tx bc u txs tx hm (bad_input_invalid bc.cx hvau u tx hu i hi hv hbad)
 
+/-- … and by the pool and the verification thread (same remark on the expired input) -/
+theorem edit_rejected_bad_input_pool_repaired (fl : Flags) (hr : Repaired8 fl) (cx : Ctx) (u : List Nat) (tx : Tx)
+    (hu : isUser tx = true) (i : Input) (hi : i ∈ tx.inputs) (hv : i.amount > 0)
+    (hbad : i.key ∉ u ∨ (fl.windowChecked = true ∧ i.old = true)
+              ∨ (∀ i0, tx.inputs.head? = some i0 → i.owner ≠ i0.owner)) :
+    poolAccepts fl cx u tx = .rejected ∧ verifyTxForwards fl cx u tx = false :=
+  pool_rejects_invalid_tx_of fl cx u tx
+    (bad_input_invalid_of fl hr.allInputsOwnedBySigner hr.stakeTypeSigned hr.spvTypeCannotCreateOutputs
+      { cx with vau := true } rfl u tx hu i hi hv hbad)
+
 /-- … and by the pool -/
 theorem edit_rejected_bad_input_pool (cx : Ctx) (u : List Nat) (tx : Tx) (hu : isUser tx = true)
     (i : Input) (hi : i ∈ tx.inputs) (hv : i.amount > 0)
@@ -341,9 +537,10 @@ theorem edit_rejected_bad_input_pool (cx : Ctx) (u : List Nat) (tx : Tx) (hu : i
     poolAccepts Flags.fixed cx u tx = .rejected ∧ verifyTxForwards Flags.fixed cx u tx = false :=
   pool_rejects_invalid_tx cx u tx (bad_input_invalid { cx with vau := true } rfl u tx hu i hi hv hbad)
 
-/-- the repaired duplicate test: a transaction of ANY type naming one output twice has verdict `false` -/
-theorem dup_input_invalid (cx : Ctx) (u : List Nat) (tx : Tx) (hd : ¬ (valueKeys tx).Nodup) :
-    txValidate Flags.fixed cx u tx = false := by
+/-- the repaired duplicate test: a transaction of ANY type naming one output twice has verdict `false`
+    (flag used: `dupInputsDetected`) -/
+theorem dup_input_invalid_of (fl : Flags) (hdup : fl.dupInputsDetected = true) (cx : Ctx) (u : List Nat) (tx : Tx)
+    (hd : ¬ (valueKeys tx).Nodup) : txValidate fl cx u tx = false := by
   have hn : noDup (valueKeys tx) = false := by
     cases h : noDup (valueKeys tx) with
     | false => rfl
@@ -351,43 +548,74 @@ theorem dup_input_invalid (cx : Ctx) (u : List Nat) (tx : Tx) (hd : ¬ (valueKey
   unfold txValidate
   split
   · rfl
-  · simp [Flags.fixed, hn]
+  · simp [hdup, hn]
+
+theorem dup_input_invalid (cx : Ctx) (u : List Nat) (tx : Tx) (hd : ¬ (valueKeys tx).Nodup) :
+    txValidate Flags.fixed cx u tx = false :=
+  dup_input_invalid_of Flags.fixed rfl cx u tx hd
+
+/-- edit "duplicated input inside one transaction": refused by block validation, the pool and the verification
+    thread, on every tree with the eight repairs -/
+theorem edit_rejected_dup_input_repaired (fl : Flags) (hr : Repaired8 fl) (bc : BCtx) (u : List Nat) (txs : List Tx)
+    (tx : Tx) (hm : tx ∈ txs) (hd : ¬ (valueKeys tx).Nodup) :
+    blockAccepts fl bc u txs = false ∧ poolAccepts fl bc.cx u tx = .rejected
+      ∧ verifyTxForwards fl bc.cx u tx = false :=
+  ⟨block_rejects_invalid_tx_of fl hr.txVerdictPropagated bc u txs tx hm
+     (dup_input_invalid_of fl hr.dupInputsDetected _ _ _ hd),
+   pool_rejects_invalid_tx_of fl bc.cx u tx (dup_input_invalid_of fl hr.dupInputsDetected _ _ _ hd)⟩
 
 /-- edit "duplicated input inside one transaction": refused by block validation and by the pool -/
 theorem edit_rejected_dup_input (bc : BCtx) (u : List Nat) (txs : List Tx) (tx : Tx) (hm : tx ∈ txs)
     (hd : ¬ (valueKeys tx).Nodup) :
     blockAccepts Flags.fixed bc u txs = false ∧ poolAccepts Flags.fixed bc.cx u tx = .rejected
       ∧ verifyTxForwards Flags.fixed bc.cx u tx = false :=
-  ⟨block_rejects_invalid_tx bc u txs tx hm (dup_input_invalid _ _ _ hd),
-   pool_rejects_invalid_tx bc.cx u tx (dup_input_invalid _ _ _ hd)⟩
+  edit_rejected_dup_input_repaired Flags.fixed Repaired8.fixed bc u txs tx hm hd
 
-/-- edit "the same output spent by two transactions of the block" (or twice by one): refused by block validation -/
-theorem edit_rejected_block_double_spend (bc : BCtx) (u : List Nat) (txs : List Tx)
-    (hd : ¬ (blockValueKeys txs).Nodup) : blockAccepts Flags.fixed bc u txs = false := by
-  have : blockSweep Flags.fixed bc.cx u txs = false := sweepGo_false_of_dup _ rfl _ _ _ _ hd
+/-- edit "the same output spent by two transactions of the block" (or twice by one): refused by block validation
+    (flag used: `txVerdictPropagated`) -/
+theorem edit_rejected_block_double_spend_repaired (fl : Flags) (hr : Repaired8 fl) (bc : BCtx) (u : List Nat)
+    (txs : List Tx) (hd : ¬ (blockValueKeys txs).Nodup) : blockAccepts fl bc u txs = false := by
+  have : blockSweep fl bc.cx u txs = false := sweepGo_false_of_dup _ hr.txVerdictPropagated _ _ _ _ hd
   simp [blockAccepts, blockValidate, this]
 
-/-- edit "privileged type": a peer transaction typed Fee / SPV / ATR / Issuance never enters the pool -/
-theorem edit_rejected_privileged_pool (cx : Ctx) (u : List Nat) (tx : Tx) (hp : tx.typ.privileged = true) :
-    poolAccepts Flags.fixed cx u tx = .rejected ∧ verifyTxForwards Flags.fixed cx u tx = false := by
+theorem edit_rejected_block_double_spend (bc : BCtx) (u : List Nat) (txs : List Tx)
+    (hd : ¬ (blockValueKeys txs).Nodup) : blockAccepts Flags.fixed bc u txs = false :=
+  edit_rejected_block_double_spend_repaired Flags.fixed Repaired8.fixed bc u txs hd
+
+/-- edit "privileged type": a peer transaction typed Fee / SPV / ATR / Issuance never enters the pool on a tree with
+    the eight repairs. That the verification thread does not forward it either needs `verifyDropsPrivilegedTypes`; on
+    the measured vector it IS forwarded (`verifyDropsPrivilegedTypes_witness_measured`). -/
+theorem edit_rejected_privileged_pool_repaired (fl : Flags) (hr : Repaired8 fl) (cx : Ctx) (u : List Nat) (tx : Tx)
+    (hp : tx.typ.privileged = true) :
+    poolAccepts fl cx u tx = .rejected
+      ∧ (fl.verifyDropsPrivilegedTypes = true → verifyTxForwards fl cx u tx = false) := by
   constructor
   · unfold poolAccepts
     split
     · rfl
-    · simp [Flags.fixed, hp]
-  · simp [verifyTxForwards, Flags.fixed, hp]
+    · simp [hr.poolRejectsPrivilegedTypes, hp]
+  · intro hf
+    simp [verifyTxForwards, hf, hp]
+
+/-- edit "privileged type": a peer transaction typed Fee / SPV / ATR / Issuance never enters the pool -/
+theorem edit_rejected_privileged_pool (cx : Ctx) (u : List Nat) (tx : Tx) (hp : tx.typ.privileged = true) :
+    poolAccepts Flags.fixed cx u tx = .rejected ∧ verifyTxForwards Flags.fixed cx u tx = false :=
+  ⟨(edit_rejected_privileged_pool_repaired Flags.fixed Repaired8.fixed cx u tx hp).1,
+   (edit_rejected_privileged_pool_repaired Flags.fixed Repaired8.fixed cx u tx hp).2 rfl⟩
 
 /-- edit "privileged type" in a block: a Fee-typed transaction other than the expected one, an Issuance-typed one
     after block 1, an ATR-typed one that is not an expected rebroadcast (`atrOk = false`), an SPV-typed one that
-    carries value — each makes the block unacceptable -/
-theorem edit_rejected_privileged_block (bc : BCtx) (u : List Nat) (txs : List Tx) (tx : Tx) (hm : tx ∈ txs)
+    carries value — each makes the block unacceptable on every tree with the eight repairs
+    (flags used: `singleFeeTx`, `txVerdictPropagated`, `spvTypeCannotCreateOutputs`) -/
+theorem edit_rejected_privileged_block_repaired (fl : Flags) (hr : Repaired8 fl) (bc : BCtx) (u : List Nat)
+    (txs : List Tx) (tx : Tx) (hm : tx ∈ txs)
     (h : (tx.typ = .fee ∧ tx.feeExp = false) ∨ (tx.typ = .issuance ∧ bc.id > 1)
         ∨ (tx.typ = .atr ∧ bc.cx.vau = true ∧ bc.atrOk = false)
         ∨ (tx.typ = .spv ∧ (tx.inputs.any Input.isValue = true ∨ tx.outputs.any (·.amount > 0) = true))) :
-    blockAccepts Flags.fixed bc u txs = false := by
+    blockAccepts fl bc u txs = false := by
   rcases h with ⟨ht, hf⟩ | ⟨ht, hid⟩ | ⟨_, hv, ha⟩ | ⟨ht, hval⟩
   · -- fee rule
-    have : feeRule Flags.fixed bc txs = false := by
+    have : feeRule fl bc txs = false := by
       have hmem : tx ∈ txs.filter (isType .fee) := List.mem_filter.2 ⟨hm, by simp [isType, ht]⟩
       have : (txs.filter (isType .fee)).all (·.feeExp) = false := by
         cases hall : (txs.filter (isType .fee)).all (·.feeExp) with
@@ -395,18 +623,25 @@ theorem edit_rejected_privileged_block (bc : BCtx) (u : List Nat) (txs : List Tx
         | true =>
           have := List.all_eq_true.1 hall tx hmem
           rw [hf] at this; cases this
-      simp [feeRule, Flags.fixed, this]
+      simp [feeRule, hr.singleFeeTx, this]
     simp [blockAccepts, blockValidate, this]
   · have hany : txs.any (isType .issuance) = true := List.any_eq_true.2 ⟨tx, hm, by simp [isType, ht]⟩
     simp [blockAccepts, blockValidate, hany, hid]
   · simp [blockAccepts, blockValidate, hv, ha]
-  · apply block_rejects_invalid_tx bc u txs tx hm
+  · apply block_rejects_invalid_tx_of fl hr.txVerdictPropagated bc u txs tx hm
     unfold txValidate
     split
     · rfl
     · split
       · rfl
-      · rcases hval with hval | hval <;> simp [ht, Flags.fixed, hval]
+      · rcases hval with hval | hval <;> simp [ht, hr.spvTypeCannotCreateOutputs, hval]
+
+theorem edit_rejected_privileged_block (bc : BCtx) (u : List Nat) (txs : List Tx) (tx : Tx) (hm : tx ∈ txs)
+    (h : (tx.typ = .fee ∧ tx.feeExp = false) ∨ (tx.typ = .issuance ∧ bc.id > 1)
+        ∨ (tx.typ = .atr ∧ bc.cx.vau = true ∧ bc.atrOk = false)
+        ∨ (tx.typ = .spv ∧ (tx.inputs.any Input.isValue = true ∨ tx.outputs.any (·.amount > 0) = true))) :
+    blockAccepts Flags.fixed bc u txs = false :=
+  edit_rejected_privileged_block_repaired Flags.fixed Repaired8.fixed bc u txs tx hm h
 
 /-! ## one witness per defect flag: the pinned behaviour accepts, repairing that flag refuses -/
 
@@ -481,6 +716,48 @@ theorem windowChecked_witness :
                      sigOk := true, signer := 1 }
     poolAccepts Flags.pinned {} u0 tx = .accepted
     ∧ poolAccepts { Flags.pinned with windowChecked := true } {} u0 tx = .rejected := by decide
+
+/-! ### the open flags on the measured vector (eight repairs in place) -/
+
+/-- signed by key 1, spends two outputs of key 1 that are in the utxo set; the first one is older than the window -/
+def txOld : Tx :=
+  { inputs := [{ key := 1, owner := 1, amount := 100, old := true }, inB], outputs := [⟨2, 1100, 0⟩],
+    sigOk := true, signer := 1 }
+
+/-- slip.rs:223 with the eight repairs in place (the measured vector): the pool and block validation still accept a
+    transaction that spends an output older than the retention window — the clause `i.old = false` of `C01_full` fails
+    for a value-carrying input of a user transaction of an accepted block; repairing `windowChecked` refuses both -/
+theorem windowChecked_witness_measured :
+    let fl : Flags := { Flags.fixed with inputLocationSigned := false, windowChecked := false,
+                                         verifyDropsPrivilegedTypes := false }
+    fl = Flags.measured
+    ∧ poolAccepts fl {} u0 txOld = .accepted ∧ verifyTxForwards fl {} u0 txOld = true
+    ∧ blockAccepts fl {} u0 [txOld] = true
+    ∧ isUser txOld = true ∧ (∃ i ∈ txOld.inputs, isValueInput i = true ∧ i.old = true)
+    ∧ poolAccepts { fl with windowChecked := true } {} u0 txOld = .rejected
+    ∧ blockAccepts { fl with windowChecked := true } {} u0 [txOld] = false := by decide
+
+/-- … hence the statement of `C01_full` is FALSE of the measured vector: `C01_repaired` cannot be strengthened by
+    the window clause without repairing `windowChecked` -/
+theorem window_clause_fails_measured :
+    ¬ (∀ (bc : BCtx) (u : List Nat) (txs : List Tx), bc.cx.vau = true → (∀ tx ∈ txs, SigSound tx) →
+        blockAccepts Flags.measured bc u txs = true →
+        ∀ tx ∈ txs, isUser tx = true → ∀ i ∈ tx.inputs, isValueInput i = true → i.old = false) := by
+  intro h
+  have hs : ∀ tx ∈ [txOld], SigSound tx := by
+    intro tx hm
+    rw [List.mem_singleton.1 hm]
+    exact fun _ => ⟨_, rfl, rfl⟩
+  have := h {} u0 [txOld] rfl hs (by decide) txOld (by simp) (by decide)
+    { key := 1, owner := 1, amount := 100, old := true } (by simp [txOld]) (by decide)
+  cases this
+
+/-- verification_thread.rs:45 with the eight repairs in place: an unsigned Fee-typed peer transaction is forwarded by
+    the verification thread although the pool refuses it — why `C01_repaired_pool` takes the pool's verdict only -/
+theorem verifyDropsPrivilegedTypes_witness_measured :
+    let tx : Tx := { typ := .fee, inputs := [inVictim], outputs := [⟨5, 4000, 0⟩], sigOk := false }
+    verifyTxForwards Flags.measured {} u0 tx = true ∧ poolAccepts Flags.measured {} u0 tx = .rejected
+    ∧ verifyTxForwards { Flags.measured with verifyDropsPrivilegedTypes := true } {} u0 tx = false := by decide
 
 /-- `Block::generate` records the inputs of the FIRST non-fee transaction only: a duplicated input in the second
     transaction passes `generate`; with the verdict discarded AND a forged signature the sweep does not see it either -/
